@@ -5,7 +5,10 @@ Models: Model/PackedDeltas.lean ⇄ write-fonts/read-fonts `tables/variations.rs
         Model/Iup.lean ⇄ write-fonts `tables/gvar/iup.rs`, skrifa `outline/glyf/deltas.rs`.
 -/
 import FontVerif.Model.PackedDeltas
+import FontVerif.Model.Iup
 import FontVerif.Lemmas.Packed
+import FontVerif.Lemmas.Iup
+import FontVerif.Lemmas.IupRat
 set_option linter.unusedVariables false
 namespace FontVerif.C10
 open FontVerif FontVerif.PackedDeltas
@@ -180,5 +183,97 @@ theorem points_yield_bound (bs : List Nat) (l : List Nat) (h : decodePoints bs =
               · omega
               · exact (ih _ _ _ _).2 p hp
     exact key _ _ _ _ _
+
+/-! ### IUP: the optimiser never drops a delta that inference does not recover within tolerance
+
+Model/Iup.lean transcribes `iup_contour_optimize` (must-encode set, rotation, the dynamic
+program over `can_iup_in_between`, the doubled-contour search) for INTEGER coordinates and deltas
+and a rational tolerance `t.n / t.d`; the one non-integer quantity of the Rust, the interpolated
+value `d1 + (c - c1) * ((d2 - d1) / (c2 - c1))`, is kept as the exact fraction (the Rust rounds it
+to f64: that rounding is NOT modelled, the harness counts inputs where it could flip a comparison
+as knife-edge).  `inferSpec` is the OpenType specification's inference of an omitted delta from
+the nearest retained points before and after it in cyclic contour order. -/
+
+open FontVerif.Iup in
+/-- **`iup_contour_optimize` is sound.**  For every contour (any length, any integer coordinates
+and deltas, any tolerance) and whatever set `enc` of deltas the optimiser decides to keep
+(all-equal shortcut, rotated DP branch or doubled-contour branch): applying the specification's
+inference to the kept deltas gives back every kept delta exactly and every omitted delta within
+the tolerance, `(dx - ix)² + (dy - iy)² ≤ tolerance²` over ℚ. -/
+theorem iup_optimize_sound (t : Tol) (ds cs : List Pt) (enc : List Bool)
+    (hlen : cs.length = ds.length) (ht : 0 < t.d) (h : contourEncode t ds cs = some enc) :
+    enc.length = ds.length ∧ ∀ k, k < ds.length →
+      let inf := inferSpec cs ds enc k
+      0 < inf.1.2 ∧ 0 < inf.2.2 ∧
+      (enc.getD k false = true →
+        ((inf.1.1 : ℚ) / inf.1.2 = (getP ds k).1 ∧ (inf.2.1 : ℚ) / inf.2.2 = (getP ds k).2)) ∧
+      (enc.getD k false = false →
+        (((getP ds k).1 : ℚ) - inf.1.1 / inf.1.2) ^ 2 + (((getP ds k).2 : ℚ) - inf.2.1 / inf.2.2) ^ 2
+          ≤ ((t.n : ℚ) / t.d) ^ 2) := by
+  obtain ⟨hl, hs⟩ := contourEncode_sound t ds cs enc hlen h
+  refine ⟨hl, fun k hk => ?_⟩
+  intro inf
+  have hpos := inferSpec_den_pos cs ds enc k
+  refine ⟨hpos.1, hpos.2, fun hreq => ?_, fun hopt => ?_⟩
+  · simp only [inf, inferSpec, hreq, if_true]
+    simp
+  · exact (withinTol_iff_rat t (getP ds k) _ _ hpos.1 hpos.2 ht).mp (hs k hk hopt)
+
+open FontVerif.Iup in
+/-- the same statement in the integer form the model computes (no division) -/
+theorem iup_optimize_sound_int (t : Tol) (ds cs : List Pt) (enc : List Bool)
+    (hlen : cs.length = ds.length) (h : contourEncode t ds cs = some enc) :
+    enc.length = ds.length ∧ ∀ k, k < ds.length → enc.getD k false = false →
+      withinTol t (getP ds k) (inferSpec cs ds enc k).1 (inferSpec cs ds enc k).2 = true :=
+  contourEncode_sound t ds cs enc hlen h
+
+open FontVerif.Iup in
+/-- building block: a `true` answer of `can_iup_in_between(from, to)` means every point strictly
+between is reproduced within tolerance by interpolating between `from` and `to`
+(`from = -1` is the last point of the slice). -/
+theorem can_iup_in_between_sound (t : Tol) (ds cs : List Pt) (j i : Nat) :
+    (canIup t ds cs (j : Int) i = true → ∀ k, j < k → k < i → okAt t ds cs j i k = true) ∧
+    (canIup t ds cs (-1) i = true → ∀ k, k < i → okAt t ds cs (ds.length - 1) i k = true) :=
+  ⟨fun h k h1 h2 => canIup_some t ds cs j i h k h1 h2, fun h k h2 => canIup_neg t ds cs i h k h2⟩
+
+open FontVerif.Iup in
+/-- building block: every `chain` entry the dynamic program produces is either the previous
+index or a pair for which `can_iup_in_between` answered `true`. -/
+theorem dp_chain_checked (t : Tol) (ds cs : List Pt) (must : List Bool) (lb : Nat) :
+    ∀ i, i < (contourDp t ds cs must lb).2.length →
+      match (contourDp t ds cs must lb).2.getD i none with
+      | some j => j + 1 = i ∨ (j + 2 ≤ i ∧ canIup t ds cs (j : Int) i = true)
+      | none => i = 0 ∨ canIup t ds cs (-1) i = true := by
+  intro i hi
+  have := contourDp_ok t ds cs must lb i hi
+  cases hc : (contourDp t ds cs must lb).2.getD i none <;> rw [hc] at this <;> exact this
+
+open FontVerif.Iup in
+/-- **reader inference = writer inference.**  The FreeType-style interpolation of the reader
+(skrifa `Jiggler::interpolate`: swap so that `in1 ≤ in2`, `scale = (out2 - out1) / (in2 - in1)`,
+`out1 + (c - in1) * scale`, "same coordinate, different delta ⇒ untouched"), evaluated in exact
+arithmetic, infers for every point the same delta as the writer's `iup_segment`, on all integer
+inputs: same denominator, same numerator.  (The reader's 16.16 rounding of `scale` is NOT
+modelled here; the harness bounds it on the real code.) -/
+theorem reader_infer_eq_writer_segment (in1 d1 in2 d2 c : Int) :
+    readerAxis in1 d1 in2 d2 c = iupAxis in1 d1 in2 d2 c := by
+  obtain ⟨h1, h2, h3⟩ := reader_eq_writer_axis in1 d1 in2 d2 c
+  rw [h2] at h1
+  have : (readerAxis in1 d1 in2 d2 c).1 = (iupAxis in1 d1 in2 d2 c).1 :=
+    Int.eq_of_mul_eq_mul_right (by omega) h1
+  exact Prod.ext this h2
+
+-- non-vacuity: the optimiser does drop deltas (rotated branch, then doubled branch)
+open FontVerif.Iup in
+example : contourEncode ⟨1, 2⟩ [(0,0),(1,0),(2,0),(0,0)] [(0,0),(10,0),(20,0),(20,10)]
+    = some [true, false, true, true] := by decide
+open FontVerif.Iup in
+example : contourEncode ⟨1, 2⟩ [(0,0),(1,1),(2,2),(3,3),(4,4),(5,5),(6,6),(7,7)]
+    [(0,0),(10,10),(20,20),(30,30),(40,40),(50,50),(60,60),(70,70)]
+    = some [true, false, false, false, false, false, false, true] := by decide +kernel
+-- and inference really interpolates: point 1 of the first example gets 1/1 from its neighbours
+open FontVerif.Iup in
+example : inferSpec [(0,0),(10,0),(20,0),(20,10)] [(0,0),(1,0),(2,0),(0,0)] [true, false, true, true] 1
+    = ((20, 20), (0, 1)) := by decide
 
 end FontVerif.C10
